@@ -372,6 +372,22 @@ func genC03(r *Run) {
 			}
 		}
 	}
+	// every DHCPv4 option code with values of 0..3 octets (whatever typed reader, printer or extractor exists for it -
+	// or is added - meets the empty and the too-short value)
+	for c := 1; c <= 254; c++ {
+		for n := 0; n <= 3; n++ {
+			pb := pktOfArgs(r.randPkt(map[byte][]byte{53: {byte(r.Pick(1, 2, 5))}, byte(c): r.Bytes(n)})).ToBytes()
+			var p4 *dhcpv4.DHCPv4
+			entry("dhcpv4.FromBytes", pb, func() {
+				if x, err := dhcpv4.FromBytes(append([]byte{}, pb...)); err == nil {
+					p4 = x
+				}
+			})
+			if p4 != nil {
+				obs += observeV4(r, pb, p4)
+			}
+		}
+	}
 	// ---- netboot conversations (sequences of 0..4 decoded messages)
 	for i := 0; i < r.N(400, 20000); i++ {
 		var conv []dhcpv6.DHCPv6
